@@ -336,6 +336,7 @@ def run(chk):
     normalised_copy(chk)
     from . import e10
     e10.run_U5(chk, ("yastn",), rule="Z9")
+    e10.run_U14(chk, ("yastn",), rule="Z12")
     mixed_keys(chk)
     # a key whose presence the reader tests is a key whose value the reader restores
     chk.rule("Z10", "every key a reader tests for presence (`k in d`) is also read by it (d[k] / d.get(k)): the stored value is restored, not merely detected", floor=5)
@@ -982,6 +983,7 @@ def normalised_copy(chk):
 
 
 MUTANTS = [
+    ('from_dict compares the truthiness of the fermionic settings', 'yastn/tensor/__init__.py', "                if (d['config']['fermionic'] if isinstance(d['config'], dict) else d['config'].fermionic) != config.fermionic:", "                if bool(d['config']['fermionic'] if isinstance(d['config'], dict) else d['config'].fermionic) != bool(config.fermionic):", 'Z12'),
     ('resolve_ops delegation drops meta', 'yastn/tensor/_output.py', '        return a.consume_transpose().to_dict(level=level, meta=meta, resolve_ops=False)', '        return a.consume_transpose().to_dict(level=level)', 'Z9'),
     ('bra restored from the ket key', 'yastn/tn/fpeps/_peps.py', "            bra = Peps.from_dict(d['bra'], config=config) if ('bra' in d) else None", "            bra = Peps.from_dict(d['ket'], config=config) if ('bra' in d) else None", 'Z10'),
     ('bare sorted over mixed keys', 'yastn/_split_combine_dict.py', '    for k in _sorted_keys(d):', '    for k in sorted(d):', 'Z11'),
